@@ -137,8 +137,8 @@ func (s *sched) worker(t *thr, w world) {
 	for i, op := range t.ops {
 		t.opIdx = i
 		t.lockOps = 0
-		r := execOp(w, op)
-		if t.lockOps == 0 && t.noLock == "" {
+		r := execOp(w, t.id, op)
+		if t.lockOps == 0 && t.noLock == "" && r != "nomod" {
 			t.noLock = op.K
 		}
 		t.results = append(t.results, r)
@@ -444,6 +444,9 @@ func runScheduled(p Prog, schedule []int) runOut {
 		if t.noLock != "" && out.noLock == "" {
 			out.noLock = t.noLock
 		}
+	}
+	if !s.stuck {
+		out.results = w.resolveAll(out.results) // no worker runs any more
 	}
 	out.hookOps = s.hookOps
 	if !s.stuck && !s.tooLong && out.deadlock == "" && out.panicked == "" && s.misuse == "" {
